@@ -285,7 +285,7 @@ def check_spsq(mon, kw, res, where=None, lap=None):
     z2, w2 = ev["z2"], ev["w2"]
     # backward error of the quadratic at the returned s
     resid = np.abs(z2 * sq * sq - b * sq + w2)
-    mag = z2 * sq * sq + np.abs(b) * sq + w2 + 1e-300
+    mag = z2 * sq * sq + np.abs(b) * sq + w2 + 1e-280
     r1 = float(np.max(resid / mag))
     mon.worst("quadratic_backward_error_over_gate", r1 / 1e-10)
     if r1 > 1e-10:
@@ -294,7 +294,9 @@ def check_spsq(mon, kw, res, where=None, lap=None):
     # psi' = w - z s (against the long-double w, z) and psi' + z |psi'|^2 = w
     pn = new_psi.astype(np.clongdouble)
     e2 = np.abs(pn + ev["z"] * sq - ev["w"])
-    m2 = np.abs(pn) + np.abs(ev["z"]) * sq + np.abs(ev["w"]) + 1e-300
+    m2 = np.abs(pn) + np.abs(ev["z"]) * sq + np.abs(ev["w"]) + 1e-280
+    # the temporal link variable exp(-i mu dt) is only determined to |mu dt| * eps in double precision
+    m2 = m2 * (1 + 1e-5 * np.abs(np.asarray(kw["mu"], dtype=LD) * LD(kw["dt"])))
     r2 = float(np.max(e2 / m2))
     mon.worst("psi_equation_error_over_gate", r2 / 1e-10)
     if r2 > 1e-10:
@@ -303,8 +305,11 @@ def check_spsq(mon, kw, res, where=None, lap=None):
     # reported |psi'|^2 equals squared modulus of reported psi'
     ap = (pn.real**2 + pn.imag**2)
     e3 = np.abs(ap - sq)
-    # conditioning: d|psi'|^2 ~ 2|psi'| |z| ds ; allow backward-stable error
-    m3 = ap + sq + 2 * np.abs(pn) * (np.abs(ev["w"]) + np.abs(ev["z"]) * sq) * 1e-3 + 1e-300
+    # conditioning: an error ds in the root changes |psi'|^2 by ~2|psi'||z| ds, and the forward
+    # error of a backward-stable root is (backward error)/|P'(s)| with |P'(s)| = sqrt(disc)
+    with np.errstate(all="ignore"):
+        ds_allowed = 1e-3 * mag / np.sqrt(np.maximum(disc, margin))
+    m3 = ap + sq + 2 * np.abs(pn) * np.abs(ev["z"]) * ds_allowed + 1e-280
     r3 = float(np.max(e3 / m3))
     mon.worst("modulus_consistency_over_gate", r3 / 1e-9)
     if r3 > 1e-9:
